@@ -315,7 +315,9 @@ func (f *Frame) freshResult(st *execState, name string, rtype types.Type, hint s
 		return nil
 	}
 	var inv []*Term
+	e.dynVals = true
 	r := e.freshVal("ret."+sanitize(name)+"."+hint, rtype, &inv)
+	e.dynVals = false
 	for _, t := range inv {
 		e.assume(e.tb.Implies(st.reach, t))
 	}
